@@ -312,6 +312,12 @@ def sampler_args(eng, ci: ClassInfo, env):
                     out[k.arg] = src(subst(k.value, env))
                 site = c
                 out["__family__"] = fam
+            elif isinstance(c.func, ast.Call) and src(c.func.func).startswith("self.") and src(c.func.func).endswith("_gen") and not c.args:
+                # the family's own law object, frozen with its shape parameters at construction: self.x_gen(name=…)(a=…)
+                for k in c.keywords:
+                    out[k.arg] = src(subst(k.value, env))
+                site = c
+                out["__frozen_own__"] = src(c.func.func)
     dm = ci.method("draw_mw")
     if dm is not None:
         for c in calls(dm, "rvs"):
